@@ -196,6 +196,20 @@ func (qr *idxResult) nextValue() *model.StreamResult {
 }
 
 func (qr *idxResult) loadSortingData(ctx context.Context) *model.StreamResult {
+	for {
+		r, exhausted := qr.loadSortingBatch(ctx)
+		if r != nil || exhausted {
+			return r
+		}
+		// Every block of this batch was pruned (skipping index, time bounds): the
+		// sorted iterator still has documents, so go on with the next batch instead
+		// of reporting the end of the result.
+	}
+}
+
+// loadSortingBatch loads the next batch of the sorted iterator. exhausted reports
+// that the iterator has no more documents.
+func (qr *idxResult) loadSortingBatch(ctx context.Context) (r *model.StreamResult, exhausted bool) {
 	var qo queryOptions
 	qo.StreamQueryOptions = qr.qo.StreamQueryOptions
 	qo.elementFilter = roaring.NewPostingList()
@@ -264,9 +278,9 @@ func (qr *idxResult) loadSortingData(ctx context.Context) *model.StreamResult {
 		}
 	}
 	if qo.elementFilter.IsEmpty() {
-		return nil
+		return nil, true
 	}
-	return qr.load(ctx, qo)
+	return qr.load(ctx, qo), false
 }
 
 func (qr *idxResult) releaseParts() {
